@@ -107,6 +107,9 @@ class DispatcherInit(FnSpec):
 
     def post(self, ex, result):
         ex.oblige("post[the event queue is unbounded: put() never blocks an emitter, put_nowait(sentinel) never fails]", self.eq_args is not None and not self.eq_args[0] and not self.eq_args[1])
+        q = ex.heap.get((self.me.id, "_event_queue"))
+        ex.oblige("post[the event queue is created by this constructor call: every dispatcher has a queue of its own (an object built in a parameter default is shared by all instances - one observer would consume another's events)]",
+                  isinstance(q, VOpaque) and q.kind == "event_queue" and not getattr(q, "deftime", False))
 
 
 class RunLoop(FnSpec):
@@ -247,7 +250,9 @@ def make_specs():
     # or not its thread is alive yet (BaseObserver.start() starts them without the registry lock)
     from specs import c13
     for sp in c13.make_specs():
-        if sp.qualname in ("BaseObserver._clear_emitters", "BaseObserver.unschedule_all"):
+        # ... start(): an emitter whose start() failed is stopped and joined before start() re-raises (its helper threads may
+        # already run); unschedule(): the emitter leaves the registry under the registry lock (a concurrent stop() iterates it)
+        if sp.qualname in ("BaseObserver._clear_emitters", "BaseObserver.unschedule_all", "BaseObserver.start", "BaseObserver.unschedule"):
             out.append(_p(sp))
     IW = IRWorld()
     out += [InoClose(IW, PROP), ReadEvents(IW, PROP, want=("fds",))]
